@@ -28,7 +28,7 @@ class Contract:
                  raises=None, may_raise=(), modifies=(), loops=None, inline=False,
                  trusted=False, pure=False, stable=(), ghost=None, prop=(), note='',
                  body_types=None, allow_exc=(), allocates=(), is_property=False,
-                 is_static=False, is_classmethod=False, repeatable=False):
+                 is_static=False, is_classmethod=False, repeatable=False, assume_callee_pre=False):
         self.key = key
         self.params = list(params)              # [(name, type, default-or-None)]
         self.returns = returns
@@ -52,6 +52,7 @@ class Contract:
         self.is_property = is_property
         self.is_static = is_static
         self.is_classmethod = is_classmethod
+        self.assume_callee_pre = assume_callee_pre   # secondary view: callee pre proved in the main view
         self.repeatable = repeatable           # every ensures clause is stable under repeated calls
 
     def param_names(self):
@@ -72,6 +73,7 @@ class Model:
         self.charsets = {}               # name -> python set of characters
         self.class_attrs = {}            # (python class name, attr) -> ('global', key) | ('const', Val)
         self.trusted_notes = []
+        self.elem_inv = {}               # (class, list field) -> predicate over element x (assumed data invariant)
 
     def add(self, c):
         self.contracts[c.key] = c
